@@ -568,6 +568,8 @@ def gen_graph_spec(rng, kinds=KEY_KINDS, max_states=8, big=False, corridor=False
         for a in sorted(rng.sample(range(nA), rng.randint(1 if not big else 3, nA))):
             edges.append([s, a, rng.randrange(n), rng.choice(costs)])
     spec = dict(kind=rng.choice(kinds), n=n, nA=nA, goals=goals, edges=edges, src=rng.randrange(n))
+    if rng.random() < 0.06:
+        spec['listact'] = True        # (used with the non-tabular 'dsp' representation) actions are unhashable [label, id] lists
     if rng.random() < 0.2:
         spec['bare_goals'] = True     # absorbing states offer no action at all (their edges in the spec are never offered)
     u = rng.random()
@@ -640,6 +642,27 @@ def make_graph_mdp(view, rep):
                                initial_state_dist=UniformDistribution([src]), **kw)
     if rep == 'dsp':
         from msdm.core.mdp.deterministic_shortest_path import DeterministicShortestPathProblem
+
+        if view.spec.get('listact'):
+            # a problem class of the user's own, outside the tabular classes: nothing requires its actions to be hashable
+            bare = view.spec.get('bare_goals')
+
+            class GL(DeterministicShortestPathProblem):
+                def next_state(self, s, a):
+                    return sk[E[sid[s], a[1]][0]]
+
+                def initial_state(self):
+                    return src
+
+                def reward(self, s, a, ns):
+                    return -num(E[sid[s], a[1]][1])
+
+                def actions(self, s):
+                    return [] if (bare and sid[s] in view.goals) else [['act', a] for a in view.A.get(sid[s], [])]
+
+                def is_absorbing(self, s):
+                    return sid[s] in view.goals
+            return GL()
 
         class G(DeterministicShortestPathProblem):
             def next_state(self, s, a):
